@@ -197,8 +197,9 @@ func fnSMove(ctx *cmdContext, args map[string]any) (output respValue, err error)
 func fnSRandMember(ctx *cmdContext, args map[string]any) (output respValue, err error) {
 	keyName := args["key"].(string)
 	count64, countSpecified := args["count"].(int64)
-	if countSpecified && (count64 < -math.MaxInt64/2 || count64 > math.MaxInt64/2) {
-		// cannot be negated, or asks for more repeated elements than a reply can hold
+	if countSpecified && count64 < -math.MaxInt64/2 {
+		// cannot be negated, or asks for more repeated elements than a reply can hold (a large positive
+		// count is fine: it means all of them)
 		output.data = respErrorString("ERR value is out of range")
 		return
 	}
